@@ -52,6 +52,7 @@ fn runs_n(x: &Vector<f64>, y: &Vector<f64>, reps: usize) -> Runs {
 }
 
 pub fn exec(case: &Value, out: &mut Out) {
+    if gets(case, "data") == "scarce" { return exec_scarce(case, out); }
     if gets(case, "data") == "over" { return exec_over(case, out); }
     if gets(case, "data") == "zero" { return exec_zero(case, out); }
     let cid = geti(case, "cid");
@@ -141,6 +142,7 @@ pub fn exec(case: &Value, out: &mut Out) {
 }
 
 pub fn gen(tier: &str, seed: u64, out: &mut Out) {
+    if tier == "child" { return child_scarce(out); }
     let quick = tier == "quick";
     let mut rng = rng(seed, 17);
     let mut cid = 0i64;
@@ -184,6 +186,12 @@ pub fn gen(tier: &str, seed: u64, out: &mut Out) {
         }
         for _ in 0..(if quick { 1 } else { 4 }) { push(out, json!({"len": rng.gen_range(201..=50_000), "want": want, "mode": "plain", "data": "zero", "shape": zshapes[rng.gen_range(0..4)]})); }
     }
+    // (h) thread shortage: the address space is limited to the current size + headroom MiB in a child process, so that some or all of the
+    //     worker threads cannot be created; lengths below / at the worker count and long ones; full and narrow affinity
+    for rep in 0..(if quick { 1 } else { 4 }) { let _ = rep;
+        for headroom in [1, 3, 5, 9, 17] { for want in [16usize, 3] { for len in [want - 1, want, 64, 1000, 100_000] {
+            push(out, json!({"len": len, "want": want, "mode": "scarce", "data": "scarce", "headroom": headroom}));
+        } } } }
     // (e) random longer vectors up to 10^5
     for i in 0..(if quick { 32 } else { 320 }) {
         let want = 1 + i % 16; let len = if i % 4 == 0 { rng.gen_range(201..=2000) } else { rng.gen_range(2001..=100_000) };
@@ -266,4 +274,56 @@ fn exec_zero(case: &Value, out: &mut Out) {
                   "r1": bits(r.r[0]), "r2": bits(r.r[1]), "r3": bits(r.r[2]), "d": bits(r.d), "ri": f2i(r.r[0]), "a1": bits(ra.r[0]), "ad": bits(ra.d),
                   "npos": prods.iter().filter(|p| isz(p) && p.is_sign_positive()).count(), "nneg": prods.iter().filter(|p| isz(p) && p.is_sign_negative()).count(),
                   "nnon": prods.iter().filter(|p| !isz(p)).count(), "val": val}));
+}
+
+// ------------------------------------------------------------------ thread shortage (C16): cases run in a CHILD process
+/// Parent side: re-invoke this binary (`gen pardot child 0 /dev/stdout`, the case in OHSL_PARDOT_CASE) and copy the events the child
+/// prints.  A child that dies or hangs yields no event: no verdict for that case, never a violation, never a tool error.
+fn exec_scarce(case: &Value, out: &mut Out) {
+    let Ok(exe) = std::env::current_exe() else { return };
+    let Ok(mut ch) = std::process::Command::new(exe).args(["gen", "pardot", "child", "0", "/dev/stdout"]).env("OHSL_PARDOT_CASE", case.to_string())
+        .stdin(std::process::Stdio::null()).stdout(std::process::Stdio::piped()).stderr(std::process::Stdio::null()).spawn() else { return };
+    // the output is a few hundred bytes (below the pipe buffer): wait first, with a deadline, then read
+    let t0 = std::time::Instant::now();
+    loop {
+        match ch.try_wait() { Ok(Some(_)) => break, Ok(None) => {}, Err(_) => return }
+        if t0.elapsed().as_secs() >= 30 { let _ = ch.kill(); let _ = ch.wait(); return; }
+        std::thread::sleep(std::time::Duration::from_millis(2));
+    }
+    let mut s = String::new();
+    if let Some(mut so) = ch.stdout.take() { use std::io::Read; if so.read_to_string(&mut s).is_err() { return; } }
+    for line in s.lines() { if line.starts_with('{') { if let Ok(v) = serde_json::from_str::<Value>(line) { if v["op"] == "pardot_s" { out.ev(v); } } } }
+}
+
+fn vm_size() -> u64 { std::fs::read_to_string("/proc/self/statm").ok().and_then(|s| s.split_whitespace().next().and_then(|t| t.parse::<u64>().ok())).unwrap_or(0) * 4096 }
+
+/// Child side: everything is allocated and the sequential reference computed BEFORE the address-space limit is lowered to the current
+/// size plus `headroom` MiB (a new thread needs a 2 MiB stack: creation fails with EAGAIN, as at the thread limit of a loaded machine);
+/// dot_f64 is called twice under the limit; the limit is restored; then the events are written.  Demand: a returned value is exact.
+fn child_scarce(out: &mut Out) {
+    let Ok(cs) = std::env::var("OHSL_PARDOT_CASE") else { return };
+    let Ok(case) = serde_json::from_str::<Value>(&cs) else { return };
+    let cid = geti(&case, "cid"); let len = getu(&case, "len"); let want = getu(&case, "want").max(1); let headroom = geti(&case, "headroom").max(0) as u64;
+    let mut rng = rng(geti(&case, "seed") as u64, 20);
+    let orig = get_affinity(); let avail = orig.len().min(num_cpus::get()).max(1);
+    let k = want.min(avail);
+    if !set_affinity(&orig[..k]) { return; }
+    let nt = num_cpus::get();
+    let xi: Vec<f64> = (0..len).map(|_| (rng.gen_range(1..=9) * if rng.gen_bool(0.5) { 1 } else { -1 }) as f64).collect();
+    let yi: Vec<f64> = (0..len).map(|_| (rng.gen_range(1..=9) * if rng.gen_bool(0.5) { 1 } else { -1 }) as f64).collect();
+    let x = Vector::<f64>::create(xi); let y = Vector::<f64>::create(yi);
+    let d = x.dot(&y);
+    let mut res: Vec<Result<f64, Box<dyn std::any::Any + Send>>> = Vec::with_capacity(4);
+    let vm = vm_size(); if vm == 0 { return; }
+    let mut old: libc::rlimit = unsafe { std::mem::zeroed() };
+    if unsafe { libc::getrlimit(libc::RLIMIT_AS, &mut old) } != 0 { return; }
+    let tight = libc::rlimit { rlim_cur: (vm + headroom * 1024 * 1024) as libc::rlim_t, rlim_max: old.rlim_max };
+    if unsafe { libc::setrlimit(libc::RLIMIT_AS, &tight) } != 0 { return; }
+    for _ in 0..2 { res.push(std::panic::catch_unwind(std::panic::AssertUnwindSafe(|| x.dot_f64(&y)))); }
+    unsafe { libc::setrlimit(libc::RLIMIT_AS, &old); }
+    for (call, r) in res.iter().enumerate() {
+        let (returned, eq, rb) = match r { Ok(v) => (true, v.to_bits() == d.to_bits(), bits(*v)), Err(_) => (false, false, String::new()) };
+        out.raw(&json!({"op": "pardot_s", "cid": cid, "mode": "scarce", "phase": if call == 0 { "first" } else { "second" }, "len": len, "nt": nt, "want": want, "avail": avail,
+                        "headroom": headroom, "returned": returned, "equal_bits": eq, "r1": rb, "d": bits(d), "panic": !returned}));
+    }
 }
